@@ -505,11 +505,19 @@ func (in *Interp) visit(fr *Frame, instr ssa.Instruction) continuation {
 		if s.obj == nil {
 			fr.set(ins, (*Ptr)(nil))
 		} else {
-			// view: only supported when the window is the whole backing array
-			if s.off != 0 || len(s.obj.val.(*ArrayV).e) != n {
-				panic(&pathEnd{kind: "unsupported", msg: "SliceToArrayPointer on sub-window"})
+			parent := s.obj.val.(*ArrayV)
+			if s.off == 0 && len(parent.e) == n {
+				fr.set(ins, &Ptr{obj: s.obj})
+			} else {
+				// window view: a Go sub-slice of the parent's cells aliases them
+				key := fmt.Sprintf("win/%p/%d/%d", parent, s.off, n)
+				o, ok := in.sides[key].(*Object)
+				if !ok {
+					o = in.newObject(nil, &ArrayV{e: parent.e[s.off : s.off+n : s.off+n]}, "window")
+					in.sides[key] = o
+				}
+				fr.set(ins, &Ptr{obj: o})
 			}
-			fr.set(ins, &Ptr{obj: s.obj})
 		}
 
 	case *ssa.MakeInterface:
@@ -570,7 +578,7 @@ func (in *Interp) visit(fr *Frame, instr ssa.Instruction) continuation {
 		in.spawn(fr, fn, args, ins)
 
 	case *ssa.MakeChan:
-		n := in.concreteInt(fr.get(ins.Size).(*Term), "chan size")
+		n := in.concreteInt(in.idx64(ins.Size.Type(), fr.get(ins.Size).(*Term)), "chan size")
 		in.nextObj++
 		fr.set(ins, &ChanV{id: in.nextObj, cap: int(n)})
 
@@ -580,8 +588,8 @@ func (in *Interp) visit(fr *Frame, instr ssa.Instruction) continuation {
 		fr.set(ins, &Ptr{obj: o})
 
 	case *ssa.MakeSlice:
-		l := in.concreteInt(fr.get(ins.Len).(*Term), "make len")
-		c := in.concreteInt(fr.get(ins.Cap).(*Term), "make cap")
+		l := in.concreteInt(in.idx64(ins.Len.Type(), fr.get(ins.Len).(*Term)), "make len")
+		c := in.concreteInt(in.idx64(ins.Cap.Type(), fr.get(ins.Cap).(*Term)), "make cap")
 		if l < 0 || c < l || c > 1<<24 {
 			in.goPanicRuntime("makeslice: len out of range")
 		}
